@@ -36,7 +36,7 @@ MIN_EVALS = {"quick": 100000, "thorough": 1000000}
 ASSUMPTIONS = ['MSB0 mode only (which end an offset counts from under lsb0 is not stated by any property)',
                'only valid windows are generated (0 <= offset, 0 <= length, offset+length <= 8*size); '
                'invalid windows belong to C15',
-               'file handles and BytesIO objects are handed over at position 0',
+               'file handles are handed over at position 0 (a BytesIO also after writing, seeking or an earlier construction from it)',
                'Array.fromfile with n larger than the items available: EOFError, after which the data is '
                'either unchanged or extended by the available whole items (array.array semantics); '
                'without n every whole item of the source is appended',
@@ -409,7 +409,18 @@ def judge_read(ctx, c):
             if via == 'bytearray':
                 return cls(bytes=bytearray(src), **kw)
             if via == 'BytesIO':
-                return cls(io.BytesIO(src), **kw)
+                f = io.BytesIO(src)
+                hist = c.get('bio')
+                if hist == 'written':          # the object was just filled by a writer (tofile leaves it positioned at its end)
+                    f = io.BytesIO()
+                    Bits(bytes=src).tofile(f)
+                elif hist == 'mid':
+                    f.seek(len(src) // 2)
+                elif hist == 'read-before':    # an earlier construction from the same object
+                    cls(f)
+                    if len(src):
+                        cls(f, offset=min(3, 8 * len(src)), length=max(8 * len(src) - 8, 0) // 2)
+                return cls(f, **kw)
             if via == 'filename':
                 return cls(filename=path, **kw)
             with open(path, 'rb') as fh:
@@ -801,8 +812,11 @@ def gen_read(ctx, via=None):
     else:
         src = bytes(range(256)) * (size // 256) + bytes(range(size % 256))
     off, ln = gen_window(rng, 8 * size)
-    return {'kind': 'read', 'cls': rng.choice(util.CLASS_NAMES), 'via': via, 'src': src.hex(),
-            'offset': off, 'length': ln}
+    c = {'kind': 'read', 'cls': rng.choice(util.CLASS_NAMES), 'via': via, 'src': src.hex(),
+         'offset': off, 'length': ln}
+    if via == 'BytesIO' and rng.random() < 0.5:
+        c['bio'] = rng.choice(['written', 'mid', 'read-before'])
+    return c
 
 
 def gen_arrfile(ctx):
